@@ -253,6 +253,16 @@ class Check(object):
         eng = self.engine
         self.phase("startup")
         reproduced = self.replay_known()
+        # an open entry whose witness no longer fails suppresses nothing: its carve-out
+        # (undo site / scenario predicate / signature) is dropped for this run
+        stale = [k for k in self.known_keys if k not in reproduced]
+        if stale:
+            for k in stale:
+                self.say("note: the witness of open finding %s no longer fails on this tree; its carve-out is not applied" % k)
+                self.messages.append("witness of open finding %s did not reproduce: carve-out dropped" % k)
+            self.known_keys = [k for k in self.known_keys if k in reproduced]
+            for s in specs:
+                s["known_keys"] = [k for k in s.get("known_keys", []) if k in reproduced]
         self.phase("known-findings-replay")
         # wall-clock cap: schedule in slices so that we can stop early
         results = []
